@@ -28,6 +28,26 @@ def load_tables():
     return json.load(open(os.path.join(VERIF, "tables", "static_tables.json")))
 
 
+def check_staticarg(rep, objs, rule="E1.staticarg", only=None):
+    """a function-local static is initialised by the first call only: its initialiser must not depend on the function's arguments (or on *this)"""
+    import staticarg
+    rep.rule(rule, "function-local statics: the initialiser does not read the enclosing function's parameters or *this (the first call would fix the value for every later call, "
+             "and concurrent first calls race on which arguments win)", minimum=1 if only is None else 0)
+
+    def in_repo(n):
+        f, _ = A.loc(n)
+        return bool(f) and f.startswith(fe.INCLUDE) and (only is None or any(f.endswith(o) for o in only))
+    for fname, node, deps in staticarg.scan(objs, in_repo):
+        f, l = A.loc(node)
+        ok = not deps
+        rep.instance(rule, fname, node.get("name"), ok=ok, nontrivial=not ok, sample={"file": fe.rel(f), "line": l, "depends_on": deps})
+        if not ok:
+            rep.violation(Finding(rule, fname, node.get("name"),
+                                  "`static %s %s` in %s is initialised from %s: the initialiser runs in the first call only, so every later call -- with other arguments -- silently "
+                                  "reuses the first call's data, and which call is first is a race between threads" % (
+                                      node.get("type", {}).get("qualType", "")[:60], node.get("name"), fname, ", ".join(deps)), f, l))
+
+
 def check_e1(rep, objs):
     T = load_tables()
     allowed = T["write_once_tables"]
@@ -569,4 +589,5 @@ def check(rep, tier, replay=None):
     objs = fe.ast_dump("smooth::")
     rep.unit("umbrella TU (%d headers), filter smooth::" % len(fe.umbrella_headers()))
     check_e1(rep, objs)
+    check_staticarg(rep, objs)
     check_e2(rep, tier)
